@@ -18,6 +18,7 @@ import multiprocessing as mp
 import os
 import random
 import shutil
+import resource
 import signal
 import tempfile
 import time
@@ -65,26 +66,32 @@ def _apply_regex(rx, how, text):
         raise ValueError(how)
 
 
+def _utime():
+    """User-mode CPU time of this process: backtracking is user time; kernel time (page reclaim on a loaded
+    machine) is not the parser's."""
+    return resource.getrusage(resource.RUSAGE_SELF).ru_utime
+
+
 def _run_job(job):
     sv = _CTX['sv']
     kind = job[0]
     out = 'ok'
     if kind == 'compile':
         sv.purge()
-        t0 = time.process_time()
+        t0 = _utime()
         try:
             sv.compile(job[1])
         except Exception as e:       # any rejection counts: only the time matters here
             out = type(e).__name__
-        cpu = time.process_time() - t0
+        cpu = _utime() - t0
     elif kind == 'regex':
         rx = _CTX['pats'][job[1]].regex
-        t0 = time.process_time()
+        t0 = _utime()
         try:
             _apply_regex(rx, job[2], job[3])
         except Exception as e:
             out = type(e).__name__
-        cpu = time.process_time() - t0
+        cpu = _utime() - t0
     elif kind == 'select':
         bs4 = _CTX['bs4']
         soup = bs4.BeautifulSoup('', 'html.parser')
@@ -93,15 +100,15 @@ def _run_job(job):
             tag.string = job[4]
         soup.append(tag)
         sv.purge()
-        t0 = time.process_time()
+        t0 = _utime()
         try:
             out = 'n=%d' % len(sv.select(job[1], soup))
         except Exception as e:
             out = type(e).__name__
-        cpu = time.process_time() - t0
+        cpu = _utime() - t0
     else:
         raise ValueError(kind)
-    return cpu, out, time.process_time()
+    return cpu, out, _utime()
 
 
 def _worker(conn):
@@ -125,7 +132,7 @@ def _proc_cpu(pid):
         with open('/proc/%d/stat' % pid) as f:
             s = f.read()
         parts = s[s.rindex(')') + 2:].split()
-        return (int(parts[11]) + int(parts[12])) / _TCK
+        return int(parts[11]) / _TCK
     except Exception:
         return None
 
@@ -339,53 +346,77 @@ def mkjob(kind, text):
     return ('regex', kind[1], kind[2], text)
 
 
-def measure(chk, pool, fams, kind, label, stats, big=True, group=None):
+def remeasure(chk, pool, jobs, first, kill, stats):
+    """Anything that is about to be reported is measured two more times and the *minimum* is used:
+    backtracking is reproducible, a stall of the machine is not."""
+    if not jobs:
+        return []
+    r2 = pool.run(jobs, kill, batch=1)
+    r3 = pool.run(jobs, kill, batch=1)
+    chk.count(2 * len(jobs))
+    stats['remeasured'] += len(jobs)
+    out = []
+    for a, b, c in zip(first, r2, r3):
+        best = min((a, b, c), key=lambda r: (kill if r[1] in ('killed', 'died') else r[0]))
+        out.append(best)
+    return out
+
+
+def _judge(h, L, t, killed):
+    """Growth criterion for a new ladder point (L, t) after history h; returns a description or None."""
+    if h and (killed or t >= 1.0):
+        L1, t1, _k = h[-1]
+        ratio = t / max(t1, 1e-3)
+        # safety factor 4 on the time ratio: a healthy quadratic step is 4x, the gate is 2^3.5 = 11.3x, times 4
+        if ratio > 4 * (L / L1) ** EXP_MAX:
+            return 'from %d to %d characters the time goes from %.3f s to %s%.2f s (local exponent %.1f)' % (
+                L1, L, t1, '> ' if killed else '', t, math.log(ratio) / math.log(L / L1))
+    pts = [(l, tt) for (l, tt, _k) in h if tt >= FIT_FLOOR] + ([(L, t)] if t >= FIT_FLOOR else [])
+    if len(pts) >= 3 and pts[-1][0] >= 3 * pts[0][0]:
+        e = fit_exponent(pts)
+        if e > EXP_MAX:
+            return 'fitted growth exponent %.2f over lengths %s' % (e, [p[0] for p in pts])
+    return None
+
+
+def measure(chk, pool, fams, kind, label, stats, big=True, group=None, deep_all=True):
     """fams: list of (prefix, unit, terminator).  kind: ('compile',) or ('regex', pattern index, method).
-    Gates: small (<= 64 chars, < 2 s CPU) and growth (exponent <= 3.5 up to n = 2000)."""
+    Gates: small (<= 64 chars, < 2 s CPU) and growth (exponent <= 3.5 up to n = 2000).
+    deep_all=False: every family climbs to n = 250; beyond that only one family in four (by digest) and every
+    family that is not already fast at 250 (an exponential with base >= 1.05 shows by then)."""
     group = group or label
+    what = 'compile()' if kind[0] == 'compile' else label
     nviol = 0
     alive = []
     smallpt = {}
     CH = 500
     for c0 in range(0, len(fams), CH):
         chunk = fams[c0:c0 + CH]
-        jobs = []
-        idx = []
-        for f in chunk:
-            nm = small_n(f)
-            jobs.append(mkjob(kind, fam_text(f, nm)))
-            idx.append((f, nm))
+        jobs = [mkjob(kind, fam_text(f, small_n(f))) for f in chunk]
         res = pool.run(jobs, SMALL_KILL)
         chk.count(len(jobs))
-        worst = {}
-        for (f, n), (cpu, out) in zip(idx, res):
+        sus = [k for k, (cpu, out) in enumerate(res) if out in ('killed', 'died') or cpu >= SMALL_LIMIT]
+        for k, r in zip(sus, remeasure(chk, pool, [jobs[k] for k in sus], [res[k] for k in sus], SMALL_KILL, stats)):
+            res[k] = r
+        for f, (cpu, out) in zip(chunk, res):
+            n = small_n(f)
             stats['small_jobs'] += 1
-            stats['small_max'] = max(stats['small_max'], cpu)
             oc = out if out in ('ok', 'killed', 'died') else 'rejected'
             stats['outcomes'][oc] = stats['outcomes'].get(oc, 0) + 1
-            if n == small_n(f):
-                smallpt[f] = (len(fam_text(f, n)), cpu)
+            text = fam_text(f, n)
             if out in ('killed', 'died') or cpu >= SMALL_LIMIT:
-                if worst.get(f) is None or cpu > worst[f][1]:
-                    worst[f] = (n, cpu, out)
-            else:
-                worst.setdefault(f, None)
-        for f in chunk:
-            w = worst.get(f)
-            if w:
-                n, cpu, out = w
-                text = fam_text(f, n)
                 nviol += 1
                 chk.violation(
                     'small:%s:%s' % (group, text),
                     '%d characters occupy %s for %s CPU s (limit %.0f s, healthy: a few ms): %r' % (
-                        len(text), 'compile()' if kind[0] == 'compile' else label,
-                        ('> %.1f' % cpu) if out == 'killed' else '%.2f' % cpu, SMALL_LIMIT, _short(text, 70)),
-                    {'cfg': 'small', 'group': group, 'selector': '%s unit %r + %r' % (group, f[1], f[2]), 'text': text,
-                     'prefix': f[0],
-                     'unit': f[1], 'terminator': f[2], 'n': n, 'cpu_s': round(cpu, 3), 'outcome': out,
-                     'kind': list(kind)})
+                        len(text), what, ('> %.1f' % cpu) if out == 'killed' else '%.2f' % cpu, SMALL_LIMIT,
+                        _short(text, 70)),
+                    {'cfg': 'small', 'group': group, 'selector': '%s unit %r + %r' % (group, f[1], f[2]),
+                     'text': text, 'prefix': f[0], 'unit': f[1], 'terminator': f[2], 'n': n,
+                     'cpu_s': round(cpu, 3), 'outcome': out, 'kind': list(kind)})
             else:
+                stats['small_max'] = max(stats['small_max'], cpu)
+                smallpt[f] = (len(text), cpu)
                 alive.append(f)
                 chk.nontrivial(label + '\x00' + fam_text(f, 2))
         if nviol >= CAP:
@@ -397,20 +428,27 @@ def measure(chk, pool, fams, kind, label, stats, big=True, group=None):
     # growth ladder, level by level; a family leaves the ladder when it is killed or flagged
     lad = {f: ladder(f) for f in alive}
     hist = {f: [smallpt[f] + (False,)] for f in alive}      # (length, cpu, killed)
+    deep = {f: deep_all or int(_h(f[0] + '\x00' + f[1] + '\x00' + f[2]), 16) % 4 == 0 for f in alive}
     level = 0
     while True:
-        cur = [f for f in alive if level < len(lad[f])]
+        cur = [f for f in alive if level < len(lad[f]) and (lad[f][level] <= BIG_N[0] or deep[f])]
         if not cur:
             break
         jobs = [mkjob(kind, fam_text(f, lad[f][level])) for f in cur]
         res = pool.run(jobs, BIG_KILL, batch=8)
         chk.count(len(jobs))
-        nxt = []
-        for f, (cpu, out) in zip(cur, res):
+
+        def point(f, r):
             n = lad[f][level]
             L = len(f[0]) + len(f[1]) * n + len(f[2])
-            killed = out in ('killed', 'died')
-            t = BIG_KILL if killed else cpu
+            killed = r[1] in ('killed', 'died')
+            return L, (BIG_KILL if killed else r[0]), killed
+        sus = [k for k, (f, r) in enumerate(zip(cur, res)) if _judge(hist[f], *point(f, r)) or r[1] in ('killed', 'died')]
+        for k, r in zip(sus, remeasure(chk, pool, [jobs[k] for k in sus], [res[k] for k in sus], BIG_KILL, stats)):
+            res[k] = r
+        nxt = []
+        for f, r in zip(cur, res):
+            L, t, killed = point(f, r)
             stats['big_jobs'] += 1
             stats['big_max'] = max(stats['big_max'], t)
             if t >= 0.05:
@@ -419,31 +457,21 @@ def measure(chk, pool, fams, kind, label, stats, big=True, group=None):
                 sl.sort(key=lambda x: (-x[0], x[1:]))
                 del sl[12:]
             h = hist[f]
-            bad = None
-            if h and (killed or t >= 1.0):
-                L1, t1, _k = h[-1]
-                local = math.log(t / max(t1, 1e-3)) / math.log(L / L1)
-                # safety factor 4 on the time ratio: a healthy quadratic step is 4x, the gate is 11.3x * 4
-                if t / max(t1, 1e-3) > 4 * (L / L1) ** EXP_MAX:
-                    bad = 'from %d to %d characters the time goes from %.3f s to %s%.2f s (local exponent %.1f)' % (
-                        L1, L, t1, '> ' if killed else '', t, local)
+            bad = _judge(h, L, t, killed)
             h.append((L, t, killed))
             pts = [(l, tt) for (l, tt, _k) in h if tt >= FIT_FLOOR]
-            if bad is None and len(pts) >= 3 and pts[-1][0] >= 3 * pts[0][0]:
-                e = fit_exponent(pts)
-                stats['max_exponent'] = max(stats['max_exponent'], e)
-                if e > EXP_MAX:
-                    bad = 'fitted growth exponent %.2f over lengths %s' % (e, [p[0] for p in pts])
+            if len(pts) >= 3 and pts[-1][0] >= 3 * pts[0][0]:
+                stats['max_exponent'] = max(stats['max_exponent'], fit_exponent(pts))
+            if lad[f][level] == BIG_N[0] and t >= FIT_FLOOR:
+                deep[f] = True
             if bad:
                 nviol += 1
                 chk.violation(
                     'growth:%s:%s|%s|%s' % (group, f[0], f[1], f[2]),
-                    '%s is not polynomially bounded on %r + %r*n + %r: %s' % (
-                        'compile()' if kind[0] == 'compile' else label, _short(f[0], 40), f[1], f[2], bad),
+                    '%s is not polynomially bounded on %r + %r*n + %r: %s' % (what, _short(f[0], 40), f[1], f[2], bad),
                     {'cfg': 'growth', 'group': group, 'selector': '%s unit %r + %r' % (group, f[1], f[2]),
-                     'prefix': f[0],
-                     'unit': f[1], 'terminator': f[2], 'points': [(l, round(tt, 4), k) for l, tt, k in h],
-                     'kind': list(kind)})
+                     'prefix': f[0], 'unit': f[1], 'terminator': f[2],
+                     'points': [(l, round(tt, 4), k) for l, tt, k in h], 'kind': list(kind)})
             elif not killed:
                 nxt.append(f)
             else:
@@ -517,16 +545,22 @@ def confirm(chk, pool, cands, pats, stats):
         res = pool.run(jobs, CONFIRM_KILL, batch=4 if n > 14 else 32)
         chk.count(len(jobs))
         stats['confirm_jobs'] += len(jobs)
-        for (ci, k), (cpu, out) in zip(keys, res):
+        def hit(key, r):
+            st = state[key]
+            killed = r[1] in ('killed', 'died')
+            t = CONFIRM_KILL if killed else r[0]
+            n0, t0 = st['hist'][-1] if st['hist'] else (0, 1e-3)
+            ratio = (t / max(t0, 1e-3)) ** (1.0 / (n - n0))
+            return t, killed, ratio, (t >= CONFIRM_MIN and ratio >= CONFIRM_RATIO)
+        sus = [i for i, (key, r) in enumerate(zip(keys, res)) if hit(key, r)[3] or r[1] in ('killed', 'died')]
+        for i, r in zip(sus, remeasure(chk, pool, [jobs[i] for i in sus], [res[i] for i in sus], CONFIRM_KILL, stats)):
+            res[i] = r
+        for (ci, k), r in zip(keys, res):
             s = state[(ci, k)]
-            killed = out in ('killed', 'died')
-            t = CONFIRM_KILL if killed else cpu
-            if True:
-                n0, t0 = s['hist'][-1] if s['hist'] else (0, 1e-3)
-                ratio = (t / max(t0, 1e-3)) ** (1.0 / (n - n0))
-                if t >= CONFIRM_MIN and ratio >= CONFIRM_RATIO and ci not in confirmed:
-                    confirmed[ci] = {'kill': k, 'n': n, 'cpu_s': round(t, 3), 'killed': killed,
-                                     'per_pump': round(ratio, 2), 'hist': s['hist'] + [(n, round(t, 4))]}
+            t, killed, ratio, ok = hit((ci, k), r)
+            if ok and ci not in confirmed:
+                confirmed[ci] = {'kill': k, 'n': n, 'cpu_s': round(t, 3), 'killed': killed,
+                                 'per_pump': round(ratio, 2), 'hist': s['hist'] + [(n, round(t, 4))]}
             s['hist'].append((n, round(t, 4)))
             if killed:
                 s['alive'] = False
@@ -744,7 +778,7 @@ def main(tier):
     pats = rn.collect(sv)
     _CTX.update({'sv': sv, 'bs4': bs4, 'pats': pats})
     stats = {'small_jobs': 0, 'small_max': 0.0, 'big_jobs': 0, 'big_max': 0.0, 'max_exponent': 0.0,
-             'outcomes': {}, 'truncated': [], 'capped': 0, 'confirm_jobs': 0, 'unsupported': []}
+             'outcomes': {}, 'truncated': [], 'capped': 0, 'confirm_jobs': 0, 'remeasured': 0, 'unsupported': []}
     workdir = tempfile.mkdtemp(prefix='c07_')
     shutil.copy(os.path.join(tlc.SPEC_DIR, 'RegexAmb.tla'), workdir)
     pool = Pool(NPROC)
@@ -771,7 +805,8 @@ def main(tier):
             nsmall, nbig = len(fams), len(fams)
         small_only = fams[nbig:nsmall]
         full = extra + fams[:nbig]
-        v = measure(chk, pool, full, ('compile',), 'compile', stats, big=True, group='compile')
+        v = measure(chk, pool, full, ('compile',), 'compile', stats, big=True, group='compile',
+                    deep_all=(tier == 'quick'))
         if small_only and v < CAP:
             measure(chk, pool, small_only, ('compile',), 'compile', stats, big=False, group='compile')
         stats['families_run'] = len(full) + len(small_only)
